@@ -36,4 +36,4 @@ echo "lightning lib tests WITH patch only: $r3" | tee -a $out
 git checkout -q -- . && git clean -fdq -e target
 cd /verif
 echo "== our check $ID against the patch" | tee -a $out
-tools/mutrun.sh $ID $D/patch.diff "$@" 2>&1 | grep -a "^FAIL\|^  detail\|^VIOLATION\|tier=\|KNOWN" | cut -c1-400 | head -8 | tee -a $out
+tools/mutrun.sh $ID $D/patch.diff "$@" 2>&1 | grep -a "^FAIL\|^  detail\|^VIOLATION\|tier=" | cut -c1-400 | head -8 | tee -a $out
